@@ -2,6 +2,7 @@ INIT MCInit
 NEXT MCNext
 CONSTANT SortMode = "any"
 CONSTANT Size = "s"
+CONSTANT Positions = {"direct", "container", "list", "choice", "augment", "inner", "union"}
 CONSTANT Only = {"augdev"}
 INVARIANT Confluent
 PROPERTY MCProgress
